@@ -257,6 +257,14 @@ def gen_case(rng, gpg=None, stratum=None):
 
             pairs.insert(0, [free[0].hex, _copy.deepcopy(rng.choice(valid_pairs)[1])])
             st_names.insert(0, "copy_of_other_keys_valid_entry")
+    # the optional, unsigned see_also field: sometimes every OpenPGP-shaped entry carries the SAME value (one keyholder's primary-key
+    # fingerprint for several signing subkeys) - it is diagnostic only and never decides which entries count
+    if gpg and rng.random() < 0.25:
+        fp = "%040x" % rng.getrandbits(160)
+        for pr, stn in zip(pairs, st_names):
+            if isinstance(pr[1], dict) and set(pr[1]) >= {"other_headers", "signature"} and isinstance(pr[1].get("see_also", ""), str) and stn in vs:
+                pr[1]["see_also"] = fp
+        st_names.append("shared_see_also") if False else None
     # junk
     nj = rng.choice([0, 0, 1, 2, 5])
     for _ in range(nj):
